@@ -95,6 +95,10 @@ res.append(case('range-assigning-field', sub(base_ret,'for _, cvss20.u0 = range 
 res.append(case('float-to-uint-idiom', sub(base_ret,'if uint64(impact-10.5)%5 == 0 {\n\t\timpact = 0\n\t}\n\t'+base_ret)))
 res.append(case('float-to-int-idiom-exact', sub(base_ret,'if int(impact*1152921504606846976)%8192 == 0 {\n\t\timpact = 0\n\t}\n\t'+base_ret), expect='translate', must='F64.intRemZero'))
 res.append(case('big-integer-constant-as-value', sub(base_ret,'n := 0x7fffffffffffffff\n\tif n+1 < n {\n\t\timpact = 0\n\t}\n\t'+base_ret)))
+# found by the false-pass audit of round 9
+res.append(case('wide-add-through-alias', sub(base_ret,'h := 2147483647\n\tk := h\n\th = h + k\n\tif h < 1 {\n\t\timpact = 0\n\t}\n\t'+base_ret)))
+res.append(case('wide-mul-by-small-constant', sub(base_ret,'h := int(cvss20.u0)\n\th = h * 255\n\tif h < 1 {\n\t\timpact = 0\n\t}\n\t'+base_ret)))
+res.append(case('wide-add-big-constant-repeated', sub(base_ret,'h := int(cvss20.u0)\n\th = h + 2147483647\n\tif h < 1 {\n\t\timpact = 0\n\t}\n\t'+base_ret)))
 shutil.rmtree(SCRATCH, ignore_errors=True)
 allok = all(r for r in res) and None not in res
 print('translator self-test:', 'ALL OK' if allok else 'FAILURES')
